@@ -245,27 +245,88 @@ def check_parent_protocol(prog: Program, rep: Report) -> None:
             want = ["send"] if "without" in wname else ["recv", "send"]
             rep.ob("R20.2-wrapper-shape", sorted(calls) == sorted(want) and calls[-1] == "send", Loc(MPM, i.lineno, wname),
                    f"{wname}: {calls}", f"the wrapper must perform {want} on the pipe, in this order")
-    # worker loop: wait; start -> clear, (acquire) send_event_time (release); wait; start -> continue | continue -> clear, send_out_state
-    loops = [n for n in worker.body if isinstance(n, ast.While)]
-    okw = False
+    # worker loop, by abstract execution of each stage (the statements between two waits) under every valuation of the two events:
+    #   stage 1 (idle):      only start set    -> clear start, send_event_time, go on to stage 2;  otherwise raise
+    #   stage 2 (suspended): only start set    -> restart the loop (start stays set for stage 1), nothing sent
+    #                        only continue set -> clear continue, send_out_state;                  neither -> raise
+    loops = [n for n in flat(worker.body) if isinstance(n, ast.While)]
+    okw: Optional[bool] = None
+    why = "worker loop not recognised"
     if len(loops) == 1:
-        seq = []
-        for st in loops[0].body:
-            t = norm(st)
-            if ".wait()" in t and isinstance(st, ast.Expr):
-                seq.append("wait")
-            elif isinstance(st, ast.If):
-                first = norm(st.test)
-                body_t = " ; ".join(norm(x) for x in st.body)
-                seq.append(("if", first, body_t, [ (norm(o.test), " ; ".join(norm(x) for x in o.body)) for o in st.orelse if isinstance(o, ast.If)]))
-        ifs = [s for s in seq if isinstance(s, tuple)]
-        if seq[:1] == ["wait"] and len(ifs) == 2 and seq.count("wait") == 2:
-            a, b = ifs
-            okw = "start_event.is_set()" in a[1] and "start_event.clear()" in a[2] and "self.send_event_time(pipe)" in a[2] \
-                and "start_event.is_set()" in b[1] and b[2].strip() == "continue" \
-                and any("continue_event.is_set()" in t and "continue_event.clear()" in bt and "self.send_out_state(pipe)" in bt for t, bt in b[3])
-    rep.ob("R20.2-worker-loop-dual", okw, wloc, "worker loop: wait, start->time, wait, (start->restart | continue->out-state)",
-           "the worker loop is not the dual of the parent's stage machine")
+        body = loops[0].body
+        cuts = [i for i, st in enumerate(body) if isinstance(st, ast.Expr) and isinstance(st.value, ast.Call) and isinstance(st.value.func, ast.Attribute)
+                and st.value.func.attr == "wait"]
+        nested_wait = any(isinstance(c, ast.Call) and isinstance(c.func, ast.Attribute) and c.func.attr == "wait"
+                          for i, st in enumerate(body) if i not in cuts for c in ast.walk(st))
+        events = sorted({norm(c.func.value) for t in ast.walk(loops[0]) if isinstance(t, ast.If) for c in ast.walk(t.test)
+                         if isinstance(c, ast.Call) and isinstance(c.func, ast.Attribute) and c.func.attr == "is_set"})
+        if len(cuts) == 2 and cuts[0] == 0 and not nested_wait and len(events) == 2:
+            stages = [body[cuts[0] + 1:cuts[1]], body[cuts[1] + 1:]]
+
+            def execute(stmts, val) -> Tuple[List[str], str]:
+                acts: List[str] = []
+
+                def truth(e: ast.AST) -> Optional[bool]:
+                    if isinstance(e, ast.Call) and isinstance(e.func, ast.Attribute) and e.func.attr == "is_set":
+                        return val.get(norm(e.func.value))
+                    if isinstance(e, ast.UnaryOp) and isinstance(e.op, ast.Not):
+                        v = truth(e.operand)
+                        return None if v is None else not v
+                    if isinstance(e, ast.BoolOp):
+                        vs = [truth(v) for v in e.values]
+                        if any(v is None for v in vs):
+                            return None
+                        return all(vs) if isinstance(e.op, ast.And) else any(vs)
+                    return None
+
+                def run(block) -> str:
+                    for st in block:
+                        if isinstance(st, (ast.Assert, ast.Pass)):
+                            continue
+                        if isinstance(st, ast.If):
+                            v = truth(st.test)
+                            if v is None:
+                                return "unknown"
+                            r = run(st.body if v else st.orelse)
+                            if r != "fall":
+                                return r
+                            continue
+                        if isinstance(st, ast.Raise):
+                            return "raise"
+                        if isinstance(st, ast.Continue):
+                            return "continue"
+                        if isinstance(st, (ast.Break, ast.Return)):
+                            return "leave"
+                        for c in ast.walk(st):
+                            if isinstance(c, ast.Call) and isinstance(c.func, ast.Attribute):
+                                if c.func.attr == "clear":
+                                    acts.append("clear " + norm(c.func.value))
+                                elif c.func.attr in ("send_event_time", "send_out_state") and isinstance(c.func.value, ast.Name) and c.func.value.id == "self":
+                                    acts.append(c.func.attr)
+                                elif c.func.attr in ("acquire", "release"):
+                                    acts.append(c.func.attr)
+                    return "fall"
+                return acts, run(stmts)
+            found = None
+            for S, C in (events, events[::-1]):
+                only = lambda e: {S: e == S, C: e == C}   # noqa: E731
+                a1, o1 = execute(stages[0], only(S))
+                _, o1c = execute(stages[0], only(C))
+                _, o1n = execute(stages[0], {S: False, C: False})
+                a2s, o2s = execute(stages[1], only(S))
+                a2c, o2c = execute(stages[1], only(C))
+                _, o2n = execute(stages[1], {S: False, C: False})
+                ok1 = o1 == "fall" and [x for x in a1 if x not in ("acquire", "release")] == [f"clear {S}", "send_event_time"] \
+                    and a1.count("acquire") == a1.count("release") and o1c == "raise" and o1n == "raise"
+                ok2 = o2s == "continue" and not a2s and o2c == "fall" and a2c == [f"clear {C}", "send_out_state"] and o2n == "raise"
+                if ok1 and ok2:
+                    found = (S, C)
+                if "unknown" in (o1, o1c, o1n, o2s, o2c, o2n):
+                    why = "a test of the worker loop is not a combination of is_set() queries"
+            okw = found is not None
+            if not okw and why == "worker loop not recognised":
+                why = "the worker loop is not the dual of the parent's stage machine"
+    rep.ob("R20.2-worker-loop-dual", okw, wloc, "worker loop: wait, start->time, wait, (start->restart | continue->out-state)", why)
 
 
 def check_precompute_and_trash(prog: Program, rep: Report) -> None:
